@@ -21,6 +21,7 @@
 #include <assert.h>
 #include <complex.h>
 #include <math.h>
+#include <stdbool.h>
 #include <stdio.h>
 #include <stdlib.h>
 #include "vnacal_internal.h"
@@ -60,6 +61,8 @@ double complex _vnacal_rfi(const double *xp, double complex *yp,
     int segment = *ip_segment;
     double complex y;
     double complex c[m], d[m];
+    double max_magnitude = 0.0, offset = 0.0;
+    bool has_zero = false;
 
     assert(n >= 1);
     assert(m <= n);
@@ -138,9 +141,33 @@ double complex _vnacal_rfi(const double *xp, double complex *yp,
     cur = nearest - base;
     assert(base >= 0 && base <= n - m);
     assert(cur >= 0 && cur < m);
+    /*
+     * A value of exactly zero in the window makes the tableau
+     * degenerate: the low-order rational functions through it vanish
+     * identically and the later corrections cancel, giving zero instead
+     * of the interpolated value.  In that case, interpolate the values
+     * moved away from zero by a constant; the corrections summed below
+     * are differences, so the constant drops out of the result.
+     */
     for (int i = 0; i < m; ++i) {
-	c[i] = yp[base + i];
-	d[i] = yp[base + i] + EPS;
+	double magnitude = cabs(yp[base + i]);
+
+	if (magnitude == 0.0) {
+	    has_zero = true;
+	} else if (magnitude > max_magnitude) {
+	    max_magnitude = magnitude;
+	}
+    }
+    if (has_zero) {
+	if (max_magnitude == 0.0) {	/* all zero */
+	    y = 0.0;
+	    goto done;
+	}
+	offset = 2.0 * max_magnitude;
+    }
+    for (int i = 0; i < m; ++i) {
+	c[i] = yp[base + i] + offset;
+	d[i] = yp[base + i] + offset + EPS;
     }
     y = yp[base + cur--];
     for (int i = 0; i < m - 1; ++i) {
